@@ -150,6 +150,33 @@ impl ColorPainter for CollectFillGlyphPainter<'_> {
     }
 }
 
+/// Verification hooks (off unless built with `--cfg googlefonts_fontations_verif`).
+#[cfg(all(googlefonts_fontations_verif, feature = "std"))]
+pub mod verif {
+    use std::cell::Cell;
+
+    thread_local! {
+        static VISITS: Cell<u64> = const { Cell::new(0) };
+        static MAX_DEPTH: Cell<usize> = const { Cell::new(0) };
+    }
+
+    pub(crate) fn visit(depth: usize) {
+        VISITS.with(|v| v.set(v.get() + 1));
+        MAX_DEPTH.with(|d| d.set(d.get().max(depth)));
+    }
+
+    /// Take (and reset) the number of paint nodes entered on this thread and
+    /// the maximum recursion depth reached.
+    pub fn take_visits() -> (u64, usize) {
+        (VISITS.with(|v| v.replace(0)), MAX_DEPTH.with(|d| d.replace(0)))
+    }
+}
+
+#[cfg(all(googlefonts_fontations_verif, not(feature = "std")))]
+mod verif {
+    pub(crate) fn visit(_depth: usize) {}
+}
+
 pub(crate) fn traverse_with_callbacks(
     paint: &ResolvedPaint,
     instance: &ColrInstance,
@@ -158,6 +185,8 @@ pub(crate) fn traverse_with_callbacks(
     resolved_stops: &mut ColorStopVec,
     recurse_depth: usize,
 ) -> Result<(), PaintError> {
+    #[cfg(googlefonts_fontations_verif)]
+    verif::visit(recurse_depth);
     if recurse_depth >= MAX_TRAVERSAL_DEPTH {
         return Err(PaintError::DepthLimitExceeded);
     }
